@@ -168,6 +168,8 @@ type scenario struct {
 	curCert  uint64
 	sched    []paramRec
 	certOnly map[uint32]bool
+	big      bool // more than 5 validators: bitmap of several bytes, one heavy validator drives finality
+	nrand    int  // random signer subsets per height for big sets
 }
 
 func (s *scenario) blockCode(id []byte) uint64 {
@@ -289,6 +291,9 @@ type valSpec struct {
 
 func (s *scenario) randomParams() (uint64, uint64, liskbft.BFTValidators) {
 	r := s.r
+	if s.big {
+		return s.bigParams()
+	}
 	n := 1 + r.Intn(s.nkeys)
 	perm := r.Intn(1000)
 	idxs := []int{}
@@ -334,6 +339,36 @@ func (s *scenario) randomParams() (uint64, uint64, liskbft.BFTValidators) {
 	return pre, cert, vals
 }
 
+// bigParams: all (or all but one: the bitmap length changes at multiples of 8) of the keys are validators; validator 0 is
+// heavy enough to finalise alone (it generates every block), the others have small weights, the certificate threshold sits
+// somewhere among the sums "heavy + some of the others"
+func (s *scenario) bigParams() (uint64, uint64, liskbft.BFTValidators) {
+	r := s.r
+	n := s.nkeys
+	if r.Intn(3) == 0 {
+		n--
+	}
+	vals := liskbft.BFTValidators{}
+	others := uint64(0)
+	ws := make([]uint64, n)
+	for i := 1; i < n; i++ {
+		ws[i] = uint64(1 + r.Intn(4))
+		others += ws[i]
+	}
+	ws[0] = 3*others + 1
+	total := ws[0] + others
+	for i := 0; i < n; i++ {
+		vals = append(vals, liskbft.NewValidator(s.addrs[i], ws[i], s.pks[i]))
+	}
+	lo := total/3 + 1
+	pre := lo + uint64(r.Intn(int(ws[0]-lo+1)))
+	cert := ws[0] + uint64(r.Intn(int(others+1)))
+	if r.Intn(4) == 0 {
+		cert = lo + uint64(r.Intn(int(total-lo+1)))
+	}
+	return pre, cert, vals
+}
+
 // setParams calls SetBFTParameters and records the scenario's own parameter schedule (what must be in force from
 // height key on); an update that changes nothing is not an entry (SetBFTParameters ignores it by specification)
 func (s *scenario) setParams(store *diffdb.Database, key uint32, pre, cert uint64, vals liskbft.BFTValidators) {
@@ -365,7 +400,7 @@ func must(err error) {
 }
 
 func newScenario(r *hx.Rng, id int, nkeys int, length int) *scenario {
-	s := &scenario{r: r, nkeys: nkeys, headers: map[uint32]*blockchain.BlockHeader{}, idCode: map[string]uint64{}, sigTab: map[string]sigSym{},
+	s := &scenario{r: r, nkeys: nkeys, big: nkeys > 5, nrand: 14, headers: map[uint32]*blockchain.BlockHeader{}, idCode: map[string]uint64{}, sigTab: map[string]sigSym{},
 		single: map[string][]byte{}}
 	for i := 0; i < nkeys+1; i++ { // the last key is never a validator
 		kp := crypto.BLSKeyGen(r.Bytes(32))
@@ -436,6 +471,13 @@ func (s *scenario) extend(n int, changeAt map[uint32]bool) {
 		prevoted, precommitted, certified, err := bft.API().GetBFTHeights(store)
 		must(err)
 		gen := s.current[int(h)%len(s.current)].Address()
+		if s.big { // the heavy validator generates every block
+			for _, v := range s.current {
+				if string(v.Address()) == string(s.addrs[0]) {
+					gen = v.Address()
+				}
+			}
+		}
 		ac := &blockchain.AggregateCommit{Height: certified, AggregationBits: codec.Hex{}, CertificateSignature: codec.Hex{}}
 		if precommitted > certified && r.Intn(4) == 0 {
 			ac = &blockchain.AggregateCommit{Height: certified + 1 + uint32(r.Intn(int(precommitted-certified))), AggregationBits: codec.Hex{1}, CertificateSignature: codec.Hex{1}}
@@ -607,12 +649,67 @@ func (s *scenario) foreignHeader(h uint32, variant int) *blockchain.BlockHeader 
 	return mkHeader(h, ts, own.PreviousBlockID, own.GeneratorAddress, own.MaxHeightGenerated, own.MaxHeightPrevoted, sr, vh, own.AggregateCommit)
 }
 
-func (s *scenario) honest(h uint32, subset int, vals []sortedVal, hdr *blockchain.BlockHeader) ([]byte, []byte) {
+// a signer subset of the validators of a height, in ascending BLS key order
+type sset []bool
+
+func (a sset) has(i int) bool { return i < len(a) && a[i] }
+func (a sset) empty() bool {
+	for _, b := range a {
+		if b {
+			return false
+		}
+	}
+	return true
+}
+
+// subsetsOf: every subset for n <= 5; for larger sets a sample that exercises every byte of the bitmap: none, all,
+// singletons and co-singletons around the byte boundaries, whole first byte, first byte + 1, only the last byte, random
+// subsets of several densities
+func (s *scenario) subsetsOf(n int, nrand int) []sset {
+	out := []sset{}
+	if n <= 5 {
+		for m := 0; m < 1<<n; m++ {
+			a := make(sset, n)
+			for i := 0; i < n; i++ {
+				a[i] = m&(1<<i) != 0
+			}
+			out = append(out, a)
+		}
+		return out
+	}
+	mk := func(f func(i int) bool) {
+		a := make(sset, n)
+		for i := range a {
+			a[i] = f(i)
+		}
+		out = append(out, a)
+	}
+	mk(func(int) bool { return false })
+	mk(func(int) bool { return true })
+	for _, j := range []int{0, 7, 8, 9, 15, 16, 17, n - 9, n - 8, n - 2, n - 1} {
+		if j >= 0 && j < n {
+			j := j
+			mk(func(i int) bool { return i == j })
+			mk(func(i int) bool { return i != j })
+		}
+	}
+	mk(func(i int) bool { return i < 8 })
+	mk(func(i int) bool { return i < 9 })
+	mk(func(i int) bool { return i >= 8 })
+	mk(func(i int) bool { return i/8 == (n-1)/8 })
+	for k := 0; k < nrand; k++ {
+		d := 1 + s.r.Intn(9)
+		mk(func(int) bool { return s.r.Intn(10) < d })
+	}
+	return out
+}
+
+func (s *scenario) honest(h uint32, subset sset, vals []sortedVal, hdr *blockchain.BlockHeader) ([]byte, []byte) {
 	bits := make([]byte, (len(vals)+7)/8)
 	kis := []int{}
 	hs := []*blockchain.BlockHeader{}
 	for i, v := range vals {
-		if subset&(1<<i) != 0 {
+		if subset.has(i) {
 			bits[i/8] |= 1 << (i % 8)
 			kis = append(kis, v.ki)
 			hs = append(hs, hdr)
@@ -661,10 +758,17 @@ func (s *scenario) verifyOps(budget int) {
 	// empty commits
 	for _, h := range heights {
 		s.verifyOp("empty", h, []byte{}, []byte{})
+		// only bits, only a signature: never an "empty" commit
+		hdr, ok := s.headers[h]
+		if !ok {
+			hdr = s.foreignHeader(h, 0)
+		}
+		s.verifyOp("half-empty", h, []byte{}, s.signCert(0, hdr))
+		s.verifyOp("half-empty", h, []byte{1}, []byte{})
 	}
 	type acc struct {
 		h      uint32
-		subset int
+		subset sset
 		bits   []byte
 		sig    []byte
 	}
@@ -679,7 +783,7 @@ func (s *scenario) verifyOps(budget int) {
 			s.verifyOp("noparams", h, []byte{1}, s.signCert(0, hdr))
 			continue
 		}
-		for subset := 0; subset < 1<<len(vals); subset++ {
+		for _, subset := range s.subsetsOf(len(vals), s.nrand) {
 			bits, sig := s.honest(h, subset, vals, hdr)
 			before := len(s.rec.Ops)
 			s.verifyOp("honest", h, bits, sig)
@@ -690,9 +794,13 @@ func (s *scenario) verifyOps(budget int) {
 	}
 	// tampering of accepted commits (and of a few rejected ones)
 	pick := accepted
-	if len(pick) > 6 {
+	npick := 6
+	if s.big {
+		npick = 3
+	}
+	if len(pick) > npick {
 		pick = nil
-		for i := 0; i < 6; i++ {
+		for i := 0; i < npick; i++ {
 			pick = append(pick, accepted[r.Intn(len(accepted))])
 		}
 	}
@@ -719,14 +827,16 @@ func (s *scenario) verifyOps(budget int) {
 			_, sig := s.honest(a.h, a.subset, vals, s.foreignHeader(a.h, v))
 			s.verifyOp("sig-foreign-cert", a.h, a.bits, sig)
 		}
-		other := (a.subset + 1 + r.Intn((1<<len(vals))-1)) % (1 << len(vals))
+		other := append(sset{}, a.subset...)
+		flip := r.Intn(len(other))
+		other[flip] = !other[flip]
 		_, sig := s.honest(a.h, other, vals, s.headers[a.h])
 		s.verifyOp("sig-other-signers", a.h, a.bits, sig)
 		kis := []int{}
 		hs := []*blockchain.BlockHeader{}
 		first := true
 		for i, v := range vals {
-			if a.subset&(1<<i) != 0 {
+			if a.subset.has(i) {
 				kis = append(kis, v.ki)
 				if first {
 					hs = append(hs, s.foreignHeader(a.h, 0))
@@ -998,22 +1108,38 @@ func (s *scenario) poolOps(n int) {
 // a pool filled only with valid commits by a chosen signer subset at every certifiable height, then assemble+verify
 func (s *scenario) assembleSweep() {
 	mhp, mhc := s.rec.Mhp, s.rec.Mhc
-	for h := mhc + 1; h <= mhp && h <= mhc+4; h++ {
+	maxh := mhc + 4
+	if s.big {
+		maxh = mhc + 2
+	}
+	for h := mhc + 1; h <= mhp && h <= maxh; h++ {
 		vals := s.sortedVals(h)
 		if vals == nil {
 			continue
 		}
-		for subset := 1; subset < 1<<len(vals); subset++ {
+		for si, subset := range s.subsetsOf(len(vals), s.nrand/3) {
+			if subset.empty() {
+				continue
+			}
 			s.exec.VerifC06Pool().Cleanup(func(uint32) bool { return false })
 			s.rec.Ops = append(s.rec.Ops, opRec{T: "cl", Keep: []uint32{}, PG: []commitRec{}, PNG: []commitRec{}})
 			cs := []commitSpec{}
 			for i, v := range vals {
-				if subset&(1<<i) != 0 {
+				if subset.has(i) {
 					cs = append(cs, commitSpec{block: s.headers[h].ID, height: h, addr: s.addrs[v.ki], sig: s.signCert(v.ki, s.headers[h])})
 				}
 			}
-			if mhp >= 100 && subset%2 == 0 {
+			if mhp >= 100 && si%2 == 0 {
 				s.scvOp(cs, false)
+			} else if s.big { // one record for the whole batch of Pool.Add calls
+				op := opRec{T: "aa", Msg: []commitRec{}}
+				for _, c := range cs {
+					sc := s.mkCommit(c)
+					op.Msg = append(op.Msg, s.commitRecOf(certificate.SingleCommits{sc}.VerifC06View()[0]))
+					s.exec.VerifC06Pool().Add(sc)
+				}
+				s.dumpPool(&op)
+				s.rec.Ops = append(s.rec.Ops, op)
 			} else {
 				for _, c := range cs {
 					sc := s.mkCommit(c)
@@ -1072,6 +1198,7 @@ func main() {
 	nscn := flag.Int("scenarios", 6, "scenarios")
 	nlong := flag.Int("long", 2, "of which longer than 100 blocks")
 	npool := flag.Int("poolops", 60, "random pool operations per scenario")
+	nbig := flag.Int("big", 3, "of which with more than 5 validators (bitmaps of several bytes)")
 	nphases := flag.Int("phases", 2, "further phases per scenario: chain extended, pool carried over")
 	in := flag.String("in", "", "replay: not supported (scenarios are regenerated from the seed); ignored")
 	flag.Parse()
@@ -1088,11 +1215,23 @@ func main() {
 		if i < *nlong {
 			length = 104 + r.Intn(40)
 		}
+		if i >= *nscn-*nbig { // validator sets whose bitmap has several bytes: 8, 9, 16, 17, 20, ..., 103
+			sizes := []int{8, 103, 16, 17, 9, 20, 24, 33, 64, 65}
+			nkeys = sizes[(i-(*nscn-*nbig))%len(sizes)]
+			length = 12 + r.Intn(30)
+			if r.Intn(3) == 0 {
+				length = 104 + r.Intn(20)
+			}
+		}
 		s := newScenario(r, i, nkeys, length)
 		s.verifyOps(0)
 		s.assembleSweep()
 		s.straddleOps()
-		s.poolOps(*npool)
+		if s.big {
+			s.poolOps(*npool / 4)
+		} else {
+			s.poolOps(*npool)
+		}
 		o.Put(s.rec)
 		// the history goes on: more blocks (finality and the certified height move, parameters change again), the pool
 		// carries its commits over, more pool operations under the new view
@@ -1107,7 +1246,11 @@ func main() {
 			}
 			s.extend(k, ch)
 			s.snapshotEnv(ph)
-			s.poolOps(*npool / 3)
+			if s.big {
+				s.poolOps(*npool / 8)
+			} else {
+				s.poolOps(*npool / 3)
+			}
 			o.Put(s.rec)
 		}
 	}
